@@ -1084,3 +1084,78 @@ Proof.
 Qed.
 Lemma stream_end_good s : goodR s (stream_end s).
 Proof. cbv beta iota delta [stream_end]. repeat symR. Qed.
+
+(* ------------------------------------------------------------------ parser layer and timers, coarse *)
+Definition goodTP (s : state) (r : state * emit * bool) : Prop :=
+  eff cAllP pTrue s (fst (fst r)) /\ outs_q (f_tls_disabled s) (snd (fst r)).
+Lemma set_ps_eff p v s : eff [Fps] p s (set_ps v s).
+Proof. eff_frame. Qed.
+Lemma set_ps_P v s : eff cAllP pTrue s (set_ps v s).
+Proof. eapply eff_weaken; [|apply pimp_true|apply (set_ps_eff pnone)]. solve_sub. Qed.
+Lemma goodTP_of s0 s (r : R) b : eff cAllP pTrue s0 s -> goodR s r -> goodTP s0 (fst r, snd r, b).
+Proof.
+  intros A [B C]. split; cbn [fst snd].
+  - eapply effP_trans; [exact A|apply effA_P; exact B].
+  - rewrite <- (effA_dis _ _ A). exact C.
+Qed.
+Lemma goodTP_st s s' b : eff cAllP pTrue s s' -> goodTP s (s', [], b).
+Proof. intro A. split; [exact A|reflexivity]. Qed.
+
+Lemma feed_item_good now it s : goodTP s (feed_item now it s).
+Proof.
+  unfold feed_item.
+  destruct (ps s) eqn:Eps; destruct it; try (apply goodTP_st; first [apply eff_refl|apply set_ps_P]).
+  - rewrite (pair_eta (stream_start _ _ _ _)). eapply goodTP_of; cycle 1; [apply stream_start_good|apply set_ps_P].
+  - break_if; [apply goodTP_st; apply set_ps_P|].
+    pose proof (stream_start_good now (ename_eqb (e_name e) NmStream) false (set_ps PClosed s)) as [A B].
+    destruct (stream_start now (ename_eqb (e_name e) NmStream) false (set_ps PClosed s)) as [s1 o1]. cbn [fst snd] in *.
+    assert (A' : eff cAllP pTrue s s1) by (eapply effP_trans; [apply set_ps_P|apply effA_P; exact A]).
+    assert (D : f_tls_disabled (set_ps PClosed s) = f_tls_disabled s) by reflexivity.
+    break_if; [split; cbn [fst snd]; [exact A'|rewrite <- D; exact B]|].
+    pose proof (stream_end_good s1) as [A2 B2]. destruct (stream_end s1) as [s2 o2]. cbn [fst snd] in *.
+    split; cbn [fst snd]; [eapply effP_trans; [exact A'|apply effA_P; exact A2]|].
+    apply outs_q_app; [rewrite <- D; exact B|]. rewrite <- (effA_dis _ _ A'). exact B2.
+  - rewrite (pair_eta (dispatch _ _ _)). eapply goodTP_of; cycle 1; [apply dispatch_good|apply eff_refl].
+  - rewrite (pair_eta (stream_end _)). eapply goodTP_of; cycle 1; [apply stream_end_good|apply set_ps_P].
+  - destruct n as [|[|m]]; try (apply goodTP_st; apply set_ps_P).
+    rewrite (pair_eta (dispatch _ _ _)). eapply goodTP_of; cycle 1; [apply dispatch_good|apply set_ps_P].
+Qed.
+
+Lemma feed_items_good now its : forall s, goodTP s (feed_items now its s).
+Proof.
+  induction its as [|it r IH]; intro s; simpl; [apply goodTP_st; apply eff_refl|].
+  break_if; [apply goodTP_st; apply eff_refl|].
+  pose proof (feed_item_good now it s) as [A B]. destruct (feed_item now it s) as [[s1 o1] bad]. cbn [fst snd] in *.
+  destruct bad; [split; assumption|].
+  pose proof (IH s1) as [A2 B2]. destruct (feed_items now r s1) as [[s2 o2] bad2]. cbn [fst snd] in *.
+  split; cbn [fst snd]; [eapply effP_trans; eassumption|].
+  apply outs_q_app; [exact B|]. rewrite <- (effA_dis _ _ A). exact B2.
+Qed.
+
+Lemma call_timed_good k now s : goodT s (call_timed k now s).
+Proof. destruct k; cbv beta iota delta [call_timed]; repeat symT. Qed.
+
+Lemma visit_timed_good now r k s : goodR s r -> goodR s (visit_timed now r k).
+Proof.
+  intros G. unfold visit_timed. destruct r as [s1 o]. break_if; [exact G|].
+  destruct (timed_lookup k s1) as [[en stp]|]; [|exact G].
+  repeat (break_if; try exact G).
+  pose proof (call_timed_good k now (timed_set_stamp k now s1)) as [A B].
+  destruct (call_timed k now (timed_set_stamp k now s1)) as [[s2 o2] keep]. cbn [fst snd] in *. destruct G as [G1 G2].
+  assert (A1 : eff cAll pTrue s (timed_set_stamp k now s1)) by (eapply effA_trans; [exact G1|toA timed_set_stamp_eff]).
+  split; cbn [fst snd].
+  - eapply effA_trans; [exact A1|]. eapply effA_trans; [exact A|]. destruct keep; peels.
+  - apply outs_q_app; [exact G2|]. rewrite <- (effA_dis _ _ (effA_P _ _ A1)). exact B.
+Qed.
+Lemma fold_visit_timed_good now ks : forall r s, goodR s r -> goodR s (fold_left (visit_timed now) ks r).
+Proof. induction ks as [|k ks IH]; intros r s G; simpl; [exact G|]. apply IH. apply visit_timed_good. exact G. Qed.
+
+Lemma fire_timed_good now s : goodR s (fire_timed now s).
+Proof.
+  unfold fire_timed. destruct (st s); try (apply goodR_ret; apply eff_refl).
+  cbv zeta. apply fold_visit_timed_good. split; [|reflexivity]. cbn [fst].
+  eapply (eff_weaken [] _ pnone); [solve_sub|apply pimp_true|].
+  apply eff_of_frame; try reflexivity; try (intros X; exact X).
+  intros f H; destruct f; try discriminate H; try reflexivity.
+  unfold eq_on, tk. simpl. rewrite ?map_map. simpl. apply map_ext. intros [[a b] c]. reflexivity.
+Qed.
